@@ -3,6 +3,7 @@ package main
 // Engine: program loading, global tables, prelude.
 
 import (
+	"time"
 	"regexp"
 	"fmt"
 	"math/big"
@@ -62,12 +63,23 @@ type Engine struct {
 func loadEngine(repo string, contractFiles []string) (*Engine, error) {
 	cfg := &packages.Config{Mode: packages.LoadAllSyntax, Dir: repo, BuildFlags: []string{"-tags=verif"},
 		Env: append(os.Environ(), "GOFLAGS=-mod=mod", "GOPROXY=off", "GOSUMDB=off", "GOTOOLCHAIN=local")}
-	pkgs, err := packages.Load(cfg, "./larking")
+	// the go command is run underneath: a transient failure (cache lock, loaded machine) must not
+	// become a broken check, so loading is tried up to three times
+	var pkgs []*packages.Package
+	var err error
+	for attempt := 1; ; attempt++ {
+		pkgs, err = packages.Load(cfg, "./larking")
+		if err == nil && packages.PrintErrors(pkgs) > 0 {
+			err = fmt.Errorf("package errors")
+		}
+		if err == nil || attempt == 3 {
+			break
+		}
+		fmt.Fprintf(os.Stderr, "govc: load attempt %d failed (%v), retrying\n", attempt, err)
+		time.Sleep(time.Duration(attempt) * 2 * time.Second)
+	}
 	if err != nil {
 		return nil, err
-	}
-	if packages.PrintErrors(pkgs) > 0 {
-		return nil, fmt.Errorf("package errors")
 	}
 	prog, spkgs := ssautil.AllPackages(pkgs, ssa.NaiveForm|ssa.GlobalDebug)
 	prog.Build()
